@@ -106,6 +106,34 @@ def run(tier):
         return res
     ctx, cases, mo, io = res
     rng = ctx.rng
+    # precision / soundness against the verified clocks: where the implementation's first differing record is the same
+    # operation with the same result and only the clock differs, a clock pointwise above the model's reports an order that
+    # no chain of edges justifies (the model's clocks are joins of exactly the stamped clocks: Props/C15edges.v,
+    # C15_precision_permit_batches), one pointwise below has lost an edge: both are failing inputs of C15
+    nprec = 0
+    for k in range(len(cases)):
+        if mo[k] == io[k] or not mo[k] or not io[k]:
+            continue
+        a, b = mo[k].split(" "), io[k].split(" ")
+        j = next((i for i in range(min(len(a), len(b))) if a[i] != b[i]), None)
+        if j is None or not (a[j].startswith("O") and b[j].startswith("O") and "@" in a[j] and "@" in b[j]):
+            continue
+        ha, ca = a[j].rsplit("@", 1)
+        hb, cb = b[j].rsplit("@", 1)
+        if ha != hb:
+            continue
+        try:
+            va, vb = [int(x) for x in ca.split(".")], [int(x) for x in cb.split(".")]
+        except ValueError:
+            continue
+        above = _vle(va, vb) and va != vb
+        below = _vle(vb, va) and va != vb
+        if (above or below) and nprec < 3:
+            nprec += 1
+            ctx.violation({"layer": "prog", "cases": [cases[k]], "implementation_trace": io[k][:3000], "model_trace": mo[k][:3000],
+                           "why": ("precision: after record %s the implementation's clock %s is above the verified model's %s: the task is reported as ordered after an operation with which no chain of happens-before edges connects it" % (ha, vb, va))
+                                  if above else
+                                  ("soundness: after record %s the implementation's clock %s is below the verified model's %s: an edge the model proves is not reflected" % (ha, vb, va))})
     cc = [gen_clock_case(rng) for _ in range(3000 if tier == "quick" else 40000)]
     cmo, cio, cm = ctx.differential("clock", cc)
     ctx.log("clock layer: %d op sequences, %d model/impl mismatches" % (len(cc), len(cm)))
